@@ -31,3 +31,106 @@ package config
 //@     invariant #deps-in forall n string :: n in g.nodes ==> seqeq(g.to[n], g.nodes[n].DependsOn)
 //@     invariant #C18.checked forall n string :: $seen[n] && g.nodes[n] != stage ==> (forall j int :: 0 <= j && j < len(g.nodes[n].DependsOn) ==> g.nodes[n].DependsOn[j] in g.nodes)
 //@     invariant #C18.checking forall j int :: 0 <= j && j <= rangeindex ==> stage.DependsOn[j] in g.nodes
+
+// ---- C15: thin safety contracts of the loader (what callers guarantee, what results look like)
+//@ func buildTask
+//@   requires def != nil && lc != nil
+//@   nomod
+//@   ensures result#1 == nil ==> result != nil
+//@ func buildContext
+//@   requires def != nil
+//@   nomod
+//@   ensures result#1 == nil ==> result != nil
+//@ func buildWatcher
+//@   requires def != nil && cfg != nil
+//@   nomod
+//@   ensures result#1 == nil ==> result != nil
+//@ func NewConfig
+//@   nomod
+//@   ensures result != nil && fresh(result) && result.Contexts != nil && result.Pipelines != nil && result.Tasks != nil && result.Watchers != nil && result.Variables != nil && (forall k string :: !(k in result.Tasks) && !(k in result.Pipelines))
+//@ func defaultConfigVariables
+//@   nomod
+//@   ensures result != nil
+//@ func (*Config).merge
+//@   requires cfg != nil
+//@   modifies *
+//@ func buildFromDefinition
+//@   requires def != nil && lc != nil
+//@   modifies *
+//@   ensures err == nil ==> cfg != nil
+//@   loop 1 "range def.Contexts"
+//@     invariant #same def == def0 && lc == lc0 && def != nil && lc != nil && cfg != nil && cfg.Contexts != nil && cfg.Tasks != nil && cfg.Watchers != nil && cfg.Pipelines != nil && cfg.Variables != nil
+//@   loop 2 "range def.Tasks"
+//@     invariant #same def == def0 && lc == lc0 && def != nil && lc != nil && cfg != nil && cfg.Contexts != nil && cfg.Tasks != nil && cfg.Watchers != nil && cfg.Pipelines != nil && cfg.Variables != nil
+//@     invariant #C18.tasks-non-nil forall k string :: k in cfg.Tasks ==> cfg.Tasks[k] != nil
+//@   loop 3 "range def.Watchers"
+//@     invariant #same def == def0 && lc == lc0 && def != nil && lc != nil && cfg != nil && cfg.Contexts != nil && cfg.Tasks != nil && cfg.Watchers != nil && cfg.Pipelines != nil && cfg.Variables != nil
+//@     invariant #C18.tasks-non-nil forall k string :: k in cfg.Tasks ==> cfg.Tasks[k] != nil
+//@   loop 4 "range def.Pipelines"
+//@     invariant #same def == def0 && lc == lc0 && def != nil && lc != nil && cfg != nil && cfg.Contexts != nil && cfg.Tasks != nil && cfg.Watchers != nil && cfg.Pipelines != nil && cfg.Variables != nil
+//@     invariant #C18.tasks-non-nil forall k string :: k in cfg.Tasks ==> cfg.Tasks[k] != nil
+//@   loop 5 "range def.Pipelines"
+//@     invariant #same def == def0 && lc == lc0 && def != nil && lc != nil && cfg != nil && cfg.Contexts != nil && cfg.Tasks != nil && cfg.Watchers != nil && cfg.Pipelines != nil && cfg.Variables != nil
+//@     invariant #C18.tasks-non-nil forall k string :: k in cfg.Tasks ==> cfg.Tasks[k] != nil
+
+//@ func (*Loader).readFile
+//@   nomod
+//@ func (*Loader).readURL
+//@   nomod
+//@ func (*Loader).decode
+//@   requires cl != nil
+//@   nomod
+//@   ensures result#1 == nil ==> result != nil
+//@ func (*Loader).resolveDefaultConfigFile
+//@   requires cl != nil
+//@   modifies cl.dir
+//@ func (*Loader).reset
+//@   requires cl != nil
+//@   modifies cl.imports
+//@   ensures cl.imports != nil
+
+// ---- C17: imports. cl.imports is the visited set: a file is marked before it is read, a nested
+// load happens only for an unvisited file, and the error of a nested load is never dropped.
+//@ pred loaderOK(cl *Loader) := cl != nil && cl.imports != nil
+
+//@ func (*Loader).load
+//@   ghostlocal nestedFailed bool
+//@   requires loaderOK(cl)
+//@   modifies *
+//@   ensures loaderOK(cl) && cl.imports == old(cl.imports)
+//@   ensures #C17.marked cl.imports[file]
+//@   ensures #C17.visited-grows forall f string :: old(cl.imports[f]) ==> cl.imports[f]
+//@   ensures #C17.import-error-propagates nestedFailed ==> err != nil
+//@   loop 1 "range importList"
+//@     invariant #same cl == cl0 && file == file0 && loaderOK(cl) && cl.imports == old(cl.imports)
+//@     invariant #C17.marked cl.imports[file]
+//@     invariant #C17.visited-grows forall f string :: old(cl.imports[f]) ==> cl.imports[f]
+//@     invariant #C17.no-failure-so-far !nestedFailed
+//@   callsite readFile
+//@     requires #C17.marked-before-read cl.imports[arg0]
+//@   callsite readURL
+//@     requires #C17.marked-before-read cl.imports[arg0]
+//@   callsite load
+//@     requires #C17.only-unvisited !cl.imports[arg0]
+//@     ghost nestedFailed = nestedFailed || result#1 != nil
+//@   callsite loadDir
+//@     ghost nestedFailed = nestedFailed || result#1 != nil
+//@   callsite mergo.Merge
+//@     assume loaderOK(cl) && cl.imports == old(cl.imports) && (forall f string :: old(cl.imports[f]) ==> cl.imports[f]) // mergo.Merge is handed &config and the imported map only: it does not touch the loader
+
+//@ func (*Loader).loadDir
+//@   ghostlocal nestedFailed bool
+//@   requires loaderOK(cl)
+//@   modifies *
+//@   ensures loaderOK(cl) && cl.imports == old(cl.imports)
+//@   ensures #C17.visited-grows forall f string :: old(cl.imports[f]) ==> cl.imports[f]
+//@   ensures #C17.import-error-propagates nestedFailed ==> result#1 != nil
+//@   loop 1 "range q"
+//@     invariant #same cl == cl0 && loaderOK(cl) && cl.imports == old(cl.imports) && cm != nil
+//@     invariant #C17.visited-grows forall f string :: old(cl.imports[f]) ==> cl.imports[f]
+//@     invariant #C17.no-failure-so-far !nestedFailed
+//@   callsite load
+//@     requires #C17.only-unvisited !cl.imports[arg0]
+//@     ghost nestedFailed = nestedFailed || result#1 != nil
+//@   callsite mergo.Merge
+//@     assume loaderOK(cl) && cl.imports == old(cl.imports) && (forall f string :: old(cl.imports[f]) ==> cl.imports[f]) // mergo.Merge is handed &config and the imported map only: it does not touch the loader
